@@ -1322,5 +1322,5 @@ package pfcp
 //@   modifies chanstate(s.rcvCh)
 //@   serves C07
 //@   loop for():
-//@     modifies chanstate(s.rcvCh)
+//@     modifies chanstate(s.rcvCh), buf[_]
 //@     invariant [open] s != nil && s.conn != nil && s.rcvCh != nil && !closed(s.rcvCh)
